@@ -143,12 +143,24 @@ def validate_trace(module, trace, wd, pid, tag, max_rej=12):
             pending = []
             break
         inv = re.search(r"Invariant (\w+) is violated", out)
+        evalerr = None
         if not um and not inv:
-            # TLC failed for another reason: evaluation error on a line => treat as tool error
-            raise ToolError(f"TLC failed on {part} ({tag}):\n" + out[-3000:])
+            # The specification could not even be evaluated on a logged event (a value outside the
+            # domain of an operator, a missing field): such an event is not a behaviour of the
+            # specification.  The run it belongs to is rejected at the line TLC had reached.
+            ls = re.findall(r"^/\\ l = (\d+)", out, re.M)
+            if ls and ("The error occurred when TLC was evaluating" in out or "unexpected exception" in out
+                       or "Error: Attempted to" in out or "Error: The" in out):
+                evalerr = int(ls[-1])
+            else:
+                raise ToolError(f"TLC failed on {part} ({tag}):\n" + out[-3000:])
         if um:
             line = int(um.group(1))
             evtxt = um.group(2).encode().decode("unicode_escape", errors="replace")
+        elif evalerr is not None:
+            line = evalerr
+            m2 = re.search(r"Error: (Attempted[^\n]*|The [^\n]*)", out)
+            evtxt = "specification not evaluable on this event: " + (m2.group(1) if m2 else "")
         else:
             # an invariant of the model failed at some step of a trace: find the deepest state
             line = len(re.findall(r"^State \d+:", out, re.M))
@@ -172,7 +184,7 @@ def validate_trace(module, trace, wd, pid, tag, max_rej=12):
         except Exception:
             ev = {"raw": runs[ri][rel][:300]}
         res["rejections"].append({"run": ri, "line_in_run": rel + 1, "event": ev, "replay": rp,
-                                  "why": evtxt[:200] if not um else "unmatched"})
+                                  "why": "unmatched" if um else evtxt[:200]})
         pending = [r for (_, r) in offs[k + 1:]]
         if len(res["rejections"]) >= max_rej:
             res["unjudged"] = len(pending)
